@@ -75,8 +75,10 @@ func (p *Pool) Get() any {
 		}
 
 		if p.created < p.limit {
+			// count the resource only once it exists, a panicking create must not leak the slot
+			item := p.create()
 			p.created++
-			return p.create()
+			return item
 		}
 
 		p.cond.Wait()
